@@ -3,6 +3,8 @@
 # against a scratch copy of /repo with the change applied, and updates meta.json (check_result,
 # first_violation). /repo itself is never modified.
 VERIF=/verif
+# checks run from a snapshot of the verifier when SIM_SNAPSHOT is set (sim/ can then be edited meanwhile)
+SNAP=${SIM_SNAPSHOT:-$VERIF}
 for d in $VERIF/seeded/${1:-*}/; do
   n=$(basename $d); [ -f "$d/patch.diff" ] || continue
   PROP=$(python3 -c "import json;print(json.load(open('$d/meta.json'))['property'])")
@@ -11,7 +13,7 @@ for d in $VERIF/seeded/${1:-*}/; do
   if ! (cd "$SCR" && patch -p1 -s < "$d/patch.diff" >/dev/null 2>&1); then echo "$n: patch does not apply to the current tree"; rm -rf "$SCR"; RES="patch_conflict"; LINE="";
   else
     rm -rf "$d/replays"; 
-    SIM_REPO="$SCR" SIM_EVIDENCE_DIR="$d/evidence" SIM_REPLAY_DIR="$d/replays" python3 $VERIF/sim/vcheck.py check $PROP --no-selftest >/tmp/reseed_$n.log 2>&1; RC=$?
+    SIM_REPO="$SCR" SIM_EVIDENCE_DIR="$d/evidence" SIM_REPLAY_DIR="$d/replays" python3 $SNAP/sim/vcheck.py check $PROP --no-selftest >/tmp/reseed_$n.log 2>&1; RC=$?
     rm -rf "$SCR"
     case $RC in 1) RES=detected;; 0) RES=missed;; *) RES="error($RC)";; esac
     LINE=$(grep -E "class=" /tmp/reseed_$n.log | head -2 | tr '\n' ' ' | cut -c1-500)
